@@ -26,7 +26,7 @@ func init() {
 			"values are kept inside the differentiable region and |v| <= 50 by the value-aware generator",
 			"the hook call verifRule(edge) sits immediately before edge.gradFn(); if it were lost the hook clause reports inconclusive and the allocation twin still decides the clause",
 		},
-		FloorQuick: 1500, FloorThor: 20000,
+		FloorQuick: 4000, FloorThor: 40000,
 		Run: runC01,
 		Finish: func(c *fw.Ctx, m *fw.Report, cov map[string]any) {
 			if m.Counters["hook_silent_backprops"] > 0 {
@@ -120,7 +120,7 @@ func checkGrads(ts []tensor.Tensor, want []*ref.T, what string) string {
 
 func runC01(c *fw.Ctx) {
 	// ---------- family 1: random reconvergent programs, every tensor as root ----------
-	for i := 0; i < c.Pick(2500, 40000); i++ {
+	for i := 0; i < c.Pick(12000, 300000); i++ {
 		c.Case(func(k *fw.K) {
 			p, vals := genProgram(k.Rng, progOpts{MinInstr: 3, MaxInstr: 40, MaxLeaves: 4, MaxRank: 3, MaxDim: 3})
 			roots := make([]int, 0, len(p))
@@ -155,7 +155,7 @@ func runC01(c *fw.Ctx) {
 	}
 
 	// ---------- family 2: graphs sharing only leaves, back-propagated in turn ----------
-	for i := 0; i < c.Pick(600, 10000); i++ {
+	for i := 0; i < c.Pick(3000, 60000); i++ {
 		c.Case(func(k *fw.K) { c01SharedLeaves(k) })
 	}
 
